@@ -569,6 +569,12 @@ func (g *FnGen) applyContract(ci *calleeInfo, args []Term, fvs map[string]SVal, 
 				cond = fmt.Sprintf("(<= r %s)", allocBefore.S)
 			}
 			g.emit(fmt.Sprintf("(assert (forall ((r Int)) (! (=> %s (= (select %s r) (select %s r))) :pattern ((select %s r)))))", cond, nw.S, old.S, nw.S))
+			// ground instances for the references in scope, so that the frame does not depend on quantifier instantiation
+			if len(excl) == 0 {
+				for _, rt := range g.knownRefs() {
+					g.emit(fmt.Sprintf("(assert (=> (<= %s %s) (= (select %s %s) (select %s %s))))", rt, allocBefore.S, nw.S, rt, old.S, rt))
+				}
+			}
 		}
 	}
 	// results
@@ -767,7 +773,7 @@ func (g *FnGen) appendOp(c *ssa.CallCommon, st *State, reach string, res ssa.Val
 	}
 	ls, lt := fmt.Sprintf("(len_%s %s)", ss, s.S), fmt.Sprintf("(len_%s %s)", ss, t.S)
 	g.emit(fmt.Sprintf("(assert (forall ((i Int)) (! (=> (and (<= 0 i) (< i %s)) (= (select %s i) %s)) :pattern ((select %s i)))))", ls, arr.S, sel(s, "i"), arr.S))
-	g.emit(fmt.Sprintf("(assert (forall ((i Int)) (! (=> (and (<= 0 i) (< i %s)) (= (select %s (+ %s i)) %s)) :pattern ((select %s (+ %s i))))))", lt, arr.S, ls, sel(t, "i"), arr.S, ls))
+	g.emit(fmt.Sprintf("(assert (forall ((i Int)) (! (=> (and (<= 0 i) (< i %s)) (= (select %s (+ %s i)) %s)) :pattern (%s))))", lt, arr.S, ls, sel(t, "i"), sel(t, "i")))
 	// help the common single-element case
 	g.emit(fmt.Sprintf("(assert (=> (= %s 1) (= (select %s %s) %s)))", lt, arr.S, ls, sel(t, "0")))
 	g.hset(st, key, Term{fmt.Sprintf("(store %s %s %s)", h.S, ref.S, arr.S), h.Sort})
@@ -919,4 +925,32 @@ func (g *FnGen) globalWriteCheck(target ssa.Value, reach string, pos token.Pos) 
 	kind := fmt.Sprintf("frame.global(%s)", name)
 	k := g.ordinal(kind)
 	g.oblige(kind, fmt.Sprint(k), []string{"C07"}, reach, "false", "store to package-level state outside init must be unreachable", pos)
+}
+
+// knownRefs: the reference-valued SSA values defined so far (parameters, results of earlier calls and loads)
+func (g *FnGen) knownRefs() []string {
+	seen := map[string]bool{}
+	var out []string
+	for v, t := range g.vals {
+		if t.Sort != "Int" {
+			continue
+		}
+		switch types.Unalias(v.Type()).Underlying().(type) {
+		case *types.Pointer, *types.Map:
+		default:
+			continue
+		}
+		if _, isConst := v.(*ssa.Const); isConst {
+			continue
+		}
+		if !seen[t.S] && strings.HasPrefix(t.S, "|") {
+			seen[t.S] = true
+			out = append(out, t.S)
+		}
+	}
+	sort.Strings(out)
+	if len(out) > 40 {
+		out = out[:40]
+	}
+	return out
 }
